@@ -30,6 +30,9 @@ KERNELS = {
     "rbf_active_perm": {"k": "rbf", "active_dims": [2, 0], "ard": True},
     "scale_active": {"k": "scale", "base": {"k": "matern", "nu": 2.5, "active_dims": [1, 2]}},
     "rq": {"k": "rq"},
+    "rff": {"k": "rff", "samples": 5},
+    "rbf_times_index": {"k": "prod", "parts": [{"k": "rbf", "active_dims": [0, 1]}, {"k": "index", "tasks": 3, "active_dims": [2]}]},
+    "index_col": {"k": "index", "tasks": 4, "rank": 2, "active_dims": [2]},
     "poly": {"k": "poly", "power": 2},
     "multitask": {"k": "multitask", "tasks": 2, "rank": 1},
     "rbfgrad": {"k": "rbfgrad"},
@@ -86,6 +89,8 @@ def cases(tier, seed):
     for name in names:
         for pb, xb, xb2 in [(p_, x_, None) for p_, x_ in PATTERNS] + ASYM:
             if name == "lcm" and pb:
+                continue
+            if tier == "quick" and name in ("rff", "rbf_times_index", "index_col") and (xb2 is not None or (pb, xb) not in (([], []), ([2], [2]), ([], [2]), ([2], []))):
                 continue
             if xb2 is not None and (name in GRADLIKE + ("lcm", "multitask") or (tier == "quick" and name not in ("rbf", "scale_active", "sum"))):
                 continue
@@ -160,6 +165,16 @@ def setup(ctx):
     attach.count(LEKT, "_transpose_nonbatch", ctx, "path:lazy_transpose")
 
 
+def _fix_index_col(name, x, g):
+    """kernels whose last input column holds task indices: make it valid indices again after the inputs were moved"""
+    import torch
+
+    if name in ("rbf_times_index", "index_col"):
+        x = x.clone()
+        x[..., 2] = torch.randint(0, 3, x.shape[:-1], generator=g).to(x.dtype)
+    return x
+
+
 def _data(case, g):
     from vf import util
 
@@ -172,6 +187,12 @@ def _data(case, g):
         x2 = x2 / x2.norm(dim=-1, keepdim=True) * (0.1 + 0.8 * util.rand(g, *x2.shape[:-1], 1))
         x1[..., 0, :] = 0.0
         x2[..., -1, :] = 0.0
+    if case["kernel"] in ("rbf_times_index", "index_col"):
+        # the last column holds task indices
+        import torch
+
+        x1[..., 2] = torch.randint(0, 3, x1.shape[:-1], generator=g).to(x1.dtype)
+        x2[..., 2] = torch.randint(0, 3, x2.shape[:-1], generator=g).to(x2.dtype)
     if case.get("same"):
         x2 = x1
     return x1, x2
@@ -322,7 +343,7 @@ def _relations(case, ctx, kern, x1, x2, D, g):
     except NotImplementedError:
         ctx.reject("diag not implemented")
     if name not in GRADLIKE and name != "cylindrical":
-        x3 = x2[..., :1, :].expand(*x2.shape[:-2], n1, D_IN) + util.randn(g, *x2.shape[:-2], n1, D_IN)
+        x3 = _fix_index_col(name, x2[..., :1, :].expand(*x2.shape[:-2], n1, D_IN) + util.randn(g, *x2.shape[:-2], n1, D_IN), g)
         with S.lazily_evaluate_kernels(False):
             D13 = kern(x1, x3).to_dense()
         dg = _dense(kern(x1, x3, diag=True))
@@ -330,6 +351,7 @@ def _relations(case, ctx, kern, x1, x2, D, g):
         if dg.shape != refd.shape:
             dg, refd = torch.broadcast_tensors(dg, refd)
         ctx.close("diag_equals_diagonal", dg, refd, (1e-7, 1e-7), cls=cls + ":x1!=x2")
+        ctx.close("diag_equals_diagonal", _dense(kern(x1, x3).diagonal(dim1=-1, dim2=-2)), torch.diagonal(D13, dim1=-2, dim2=-1), (1e-7, 1e-7), cls=cls + ":x1!=x2:lazy.diagonal")
     # active_dims restricts a kernel to exactly those input columns: the same kernel class without active_dims, carrying the
     # same parameters, on the columns picked by hand
     spec = KERNELS[name]
@@ -341,6 +363,8 @@ def _relations(case, ctx, kern, x1, x2, D, g):
     # cross block of the stacked evaluation, the swapped call and the lazy tensor all agree with the eager cross matrix
     if name not in GRADLIKE + ("cylindrical", "multitask", "lcm"):
         xn = x1 + 3e-6 * util.randn(g, *x1.shape)
+        if name in ("rbf_times_index", "index_col"):
+            xn[..., 2] = x1[..., 2]
         with S.lazily_evaluate_kernels(False):
             Dn = kern(x1, xn).to_dense()
         Jn = kern(torch.cat([x1, xn], -2)).to_dense()
